@@ -6,4 +6,5 @@ cd "$(dirname "$0")"
 mkdir -p bin evidence evidence/replays
 (cd checker && go build -o ../bin/ibcverif .)
 (cd /repo && go build ./modules/... >/dev/null 2>&1 || true)
+(cd /repo/modules/light-clients/08-wasm && go build ./... >/dev/null 2>&1 || true)
 echo setup-ok
